@@ -145,7 +145,7 @@ def check_corruption(ctx, pms, case, tmpdir):
     slot = corrupt.slot(fmt, case["slot"])
     try:
         obj = formats.build(pms, fmt, D, case["order_seed"])
-        obj.dumps()
+        valid_text = obj.dumps()
     except Exception as e:
         ctx.note_add("base_object_not_writable")
         return None
@@ -168,6 +168,11 @@ def check_corruption(ctx, pms, case, tmpdir):
         ctx.count("position-nested-variant")
     if fmt == "images" and slot.name.startswith("image") and pos > 0:
         ctx.count("position-second-image")
+    if outcome == "WRITTEN" and info == valid_text:
+        # the 'invalid' value is what the field held already (e.g. the mis-aligned UID pattern happens to spell the valid
+        # UID): the object was not corrupted at all
+        ctx.note_add("corruption_was_a_no_op")
+        return None
     ok = outcome in ("TypeError", "ValueError")
     ctx.monitor("invalid-refused", fired=not ok)
     if not ok:
